@@ -17,7 +17,9 @@ for d in sorted(glob.glob(os.path.join(V, 'seeded', '*'))):
     if not needs:
         needs = ' '.join(readme.split())[:400]
     caught_by = [r.split()[1] for r in results if len(r.split()) > 2 and r.split()[2] == 'CAUGHT']
-    missed_by = [r.split()[1] for r in results if len(r.split()) > 2 and r.split()[2] in ('missed', 'inconclusive')]
+    caught_by = sorted(set(caught_by), key=caught_by.index)
+    missed_by = [r.split()[1] for r in results if len(r.split()) > 2 and r.split()[2] in ('missed', 'inconclusive') and r.split()[1] not in caught_by]
+    missed_by = sorted(set(missed_by), key=missed_by.index)
     meta = {
         "seed": sid, "breaks_property": prop,
         "patch": "patch.diff", "demonstration": [os.path.basename(f) for f in glob.glob(os.path.join(d, '*_test.go'))],
@@ -29,6 +31,6 @@ for d in sorted(glob.glob(os.path.join(V, 'seeded', '*'))):
     }
     json.dump(meta, open(os.path.join(d, 'meta.json'), 'w'), indent=1)
     rows.append((sid, ', '.join(caught_by) or '—', ', '.join(missed_by) or '—'))
-print('| seed | caught by (quick) | run but not caught |\n|---|---|---|')
+print('| seed | caught by | run but not caught |\n|---|---|---|')
 for r in rows:
     print('| %s | %s | %s |' % r)
